@@ -9,6 +9,7 @@ import copy
 import os
 
 import numpy as np
+from ..common import aeq  # noqa: E402
 
 from .. import build as B
 from .. import scen
@@ -221,7 +222,7 @@ def post(sim, h):
                     V.append(Violation(label + "-flag", f"{label} copy has time_dependent={P.time_dependent}", **where))
                 a = np.asarray(P(x, y, z, **kw))
                 b = np.asarray(A(x, y, z, **kw))
-                if a.shape != b.shape or not np.array_equal(a, b):
+                if a.shape != b.shape or not aeq(a, b):
                     V.append(Violation(label + "-value", f"{label} copy evaluates differently (max |diff| {max_err(a, b):.3g})", **where))
             except Exception as e:
                 V.append(Violation(label + "-raised", f"using the {label} copy raised {type(e).__name__}: {str(e)[:100]}", exc=type(e).__name__, **where))
